@@ -93,6 +93,8 @@ def slic(array, spacer=16, m=1.0, max_iters=128):
     _check_3(array, 'slic')
     if int(spacer) <= 0:
         raise ValueError('mahotas.segmentation.slic: spacer must be positive')
+    if int(max_iters) <= 0:
+        raise ValueError('mahotas.segmentation.slic: max_iters must be positive')
     labels = np.zeros((array.shape[0], array.shape[1]), dtype=np.intc)
     labels = labels.copy()
     n = _labeled.slic(array, labels, int(spacer), float(m), int(max_iters))
